@@ -38,6 +38,28 @@ Theorem C25_linear_terms :
 Proof. exact linear_terms. Qed.
 Print Assumptions C25_linear_terms.
 
+(* ---------------- clamped differences (clampedDiff and the control loop of mjd_stepFD), over R.
+   (a) for an output that is affine in the perturbed variable, every branch of clampedDiff (forward only,
+       backward only, both = centred) returns the exact slope, and zeros when neither direction is given;
+   (b) the control loop (nudge_fwd / nudge_back selected with inRange as written, for every flg_centered,
+       limited or not, control inside, at the edge of or outside its range, any eps > 0) applied to an output
+       that is affine in the control as the force law sees it (mju_clip to ctrlrange when limited): the row
+       equals the exact slope whenever at least one nudge is allowed and zero otherwise, and an allowed
+       nudge keeps both evaluation points inside the range. *)
+Theorem C25_clamped_diff :
+  (forall (a c0 : list R) (u h : R), 0 < h -> List.length a = List.length c0 ->
+     clampedDiff (aff a c0 u) (Some (aff a c0 (u + h))) None h = a /\
+     clampedDiff (aff a c0 u) None (Some (aff a c0 (u - h))) h = a /\
+     clampedDiff (aff a c0 u) (Some (aff a c0 (u + h))) (Some (aff a c0 (u - h))) h = a /\
+     clampedDiff (aff a c0 u) None None h = map (fun _ : R => 0) a) /\
+  (forall (a c0 : list R) (limited centered : bool) (c eps lo hi : R), 0 < eps -> List.length a = List.length c0 ->
+     ctrl_column limited centered c eps lo hi (gclip limited lo hi a c0) =
+       (if nudge_fwd limited c eps lo hi || nudge_back limited centered c eps lo hi then a else map (fun _ : R => 0) a) /\
+     (limited = true -> nudge_fwd limited c eps lo hi = true -> lo <= c <= hi /\ lo <= c + eps <= hi) /\
+     (limited = true -> nudge_back limited centered c eps lo hi = true -> lo <= c - eps <= hi /\ lo <= c <= hi)).
+Proof. exact (conj clampedDiff_affine ctrl_column_affine). Qed.
+Print Assumptions C25_clamped_diff.
+
 (* ---------------- polynomial damping (the general mju_polyForce / mjd_xPolyForce loops, any number of
    coefficients).  Partial: for v <> 0 the slope mjd_passive_vel adds on the diagonal is the derivative
    (Coquelicot is_derive) of the dof damping force -v * polyForce(b, poly, |v|); v = 0 is excluded and the
